@@ -6,7 +6,7 @@ from ..terms import NF, sym, term_str, subterms
 from ..ratfun import RF
 from ..values import Struct, Arr, Opaque, VecV, SeqMap, Stream, SliceRef
 from ..facts import adt, param
-from .rounding import count_rounded_ops, _is_pow2, spurious_overflow
+from .rounding import count_rounded_ops, _is_pow2, spurious_overflow, data_divisors
 
 HD = 'poly::HasDerivative'
 LEVEL = 'proof'
